@@ -3,12 +3,16 @@
    What is proved: the row pipeline of the decoder model (filter byte, reconstruction against the previous reconstructed row, previous row
    reset per image/pass) returns, for EVERY inflated byte stream, every row count, every pixel size and every row length, exactly what the
    specification's reconstruction returns - including the same errors for a short stream or an undefined filter byte; the row length is a whole
-   number of filter units for each legal colour/depth pair and every width.  Adam7 placement is C15_expand_image, the per-row filter theorem
-   is C14.  The inflater is fdeflate (contract; the executable reference of Base/Inflate.v is used in the correspondence), chunk framing is the
+   number of filter units for each legal colour/depth pair and every width.  INTERLACED IMAGES (Proofs/InterlacedImage.v): for each of the 15 legal colour/depth pairs, every size and every inflated
+   stream, when the model of the whole Adam7 decode delivers an image, the rows it used are the specification's reconstruction of the seven pass
+   images (each pass filtered as an image of its own), the image has height x row-bytes bytes, pixel (x, y) holds bit for bit the pixel of the pass
+   row that the 8x8 Adam7 pattern assigns to it, and every padding bit is zero (C01_interlaced_image_equals_specification; the pixel part is
+   C15_expand_image, this adds the row part and the glue between byte lists and images as functions).  The per-row filter theorem is C14.  The inflater is fdeflate (contract; the executable reference of Base/Inflate.v is used in the correspondence), chunk framing is the
    L0 machine (C04/C10).  Buffer management (compaction, partial rows) is tied by the correspondence check, not proved. *)
 From PngV Require Import Base.Bytes Spec.FilterSpec Gen.GenPaeth Model.Filter Proofs.PaethProofs Proofs.FilterProofs Model.Pipeline Proofs.PipelineProofs Base.Inflate.
 From PngV Require Import Model.ZlibBuf Proofs.ZlibBufProofs.
 From PngV Require Import Model.UnfiltBuf Proofs.UnfiltBufProofs.
+From PngV Require Import Spec.Adam7Spec Gen.GenAdam7 Model.Adam7 Proofs.Adam7Expand Proofs.InterlacedImage.
 
 (* every stream, row count, pixel size, row length (multiple of the filter unit): model rows = specification rows, same errors *)
 Theorem C01_row_pipeline_equals_specification :
@@ -37,6 +41,73 @@ Theorem C01_plain_image_equals_specification :
        | Panic p => Panic p
        end.
 Proof. exact decode_plain_spec. Qed.
+
+(* whole interlaced image (predictor compiled on x86-64): rows = the specification's reconstruction of the seven pass images; every pixel at its Adam7 position, bit for bit; padding bits zero *)
+Theorem C01_interlaced_image_equals_specification :
+  forall (c d w h : Z) (stream img : list Z),
+       In (c, d) legal_pairs ->
+       0 < w < 4294967296 ->
+       0 < h < 4294967296 ->
+       bytes_ok stream ->
+       decode_adam7 filter_paeth_decode_x86_64 c d w h stream = Ok img ->
+       let bits := bits_pp c d in
+       let stride := row_bytes_spec c d w in
+       exists rs : list (Z * Z * Z * list Z),
+         recon_passes c d (rows_model w h) [] stream = Ok rs /\
+         zlen img = stride * h /\
+         (forall x y j : Z,
+          0 <= x < w ->
+          0 <= y < h ->
+          0 <= j < bits -> get_bit (img_of_list img) (y * stride * 8 + x * bits + j) = src_of bits rs x y j) /\
+         (forall q : Z,
+          0 <= q < stride * h * 8 ->
+          (forall x y : Z,
+           0 <= x < w -> 0 <= y < h -> ~ y * stride * 8 + x * bits <= q < y * stride * 8 + x * bits + bits) ->
+          get_bit (img_of_list img) q = false).
+Proof. exact decode_adam7_spec_x86. Qed.
+
+(* the same for the predictor compiled on other targets *)
+Theorem C01_interlaced_image_equals_specification_other_targets :
+  forall (c d w h : Z) (stream img : list Z),
+       In (c, d) legal_pairs ->
+       0 < w < 4294967296 ->
+       0 < h < 4294967296 ->
+       bytes_ok stream ->
+       decode_adam7 filter_paeth_decode_other c d w h stream = Ok img ->
+       let bits := bits_pp c d in
+       let stride := row_bytes_spec c d w in
+       exists rs : list (Z * Z * Z * list Z),
+         recon_passes c d (rows_model w h) [] stream = Ok rs /\
+         zlen img = stride * h /\
+         (forall x y j : Z,
+          0 <= x < w ->
+          0 <= y < h ->
+          0 <= j < bits -> get_bit (img_of_list img) (y * stride * 8 + x * bits + j) = src_of bits rs x y j) /\
+         (forall q : Z,
+          0 <= q < stride * h * 8 ->
+          (forall x y : Z,
+           0 <= x < w -> 0 <= y < h -> ~ y * stride * 8 + x * bits <= q < y * stride * 8 + x * bits + bits) ->
+          get_bit (img_of_list img) q = false).
+Proof. exact decode_adam7_spec_other. Qed.
+
+(* the row part on its own: the rows scattered by the model are the specification's reconstruction, pass by pass (previous row reset at line 0 of every pass) *)
+Theorem C01_interlaced_rows_are_the_pass_images :
+  forall P : Z -> Z -> Z -> Z,
+       (forall a b c : Z, byte_ok a -> byte_ok b -> byte_ok c -> P a b c = paeth_spec a b c) ->
+       forall c d stride : Z,
+       In (c, d) legal_pairs ->
+       forall (rows : list (Z * Z * Z)) (lwprev : option Z) (prev stream dest img : list Z),
+       Forall (fun r : Z * Z * Z => 0 <= snd r) rows ->
+       chain lwprev rows ->
+       prev_fits c d lwprev prev ->
+       bytes_ok stream ->
+       decode_passes P c d stride rows prev stream dest = Ok img ->
+       exists rs : list (Z * Z * Z * list Z),
+         recon_passes c d rows prev stream = Ok rs /\
+         expand_list stride (bits_pp c d) rs dest = Some img /\
+         map (fun r : Z * Z * Z * list Z => (fst (fst (fst r)), snd (fst (fst r)), snd (fst r))) rs = rows /\
+         Forall (fun r : Z * Z * Z * list Z => bytes_ok (snd r)) rs.
+Proof. exact decode_passes_ok. Qed.
 
 (* for each of the 15 legal colour/depth pairs and every width the row length is a multiple of the filter unit (so the theorems above apply) *)
 Theorem C01_row_length_is_whole_filter_units :
@@ -124,8 +195,17 @@ Example C01_nonvacuous :
   decode_frame 2 8 2 2 false ([120; 1; 1; 14; 0; 241; 255; 1; 10; 20; 30; 1; 2; 3; 2; 5; 5; 5; 250; 250; 250] ++ [0;0;0;0])
   = Some [10; 20; 30; 11; 22; 33; 15; 25; 35; 5; 16; 27].
 Proof. vm_compute. reflexivity. Qed.
+
+(* non-vacuity for the interlaced theorem: 3x3 8-bit grey, pass rows carrying 1..9 *)
+Example C01_interlaced_demo :
+  rows_model 3 3 = [(1, 0, 1); (4, 0, 1); (5, 0, 2); (6, 0, 1); (6, 1, 1); (7, 0, 3)] /\
+  decode_adam7 filter_paeth_decode_x86_64 0 8 3 3 [0; 1;  0; 2;  0; 3; 4;  0; 5;  0; 6;  0; 7; 8; 9] = Ok [1; 5; 2;  7; 8; 9;  3; 6; 4].
+Proof. exact decode_adam7_demo. Qed.
 Print Assumptions C01_row_pipeline_equals_specification.
 Print Assumptions C01_plain_image_equals_specification.
+Print Assumptions C01_interlaced_image_equals_specification.
+Print Assumptions C01_interlaced_image_equals_specification_other_targets.
+Print Assumptions C01_interlaced_rows_are_the_pass_images.
 Print Assumptions C01_row_length_is_whole_filter_units.
 Print Assumptions C01_reconstruction_keeps_row_length.
 Print Assumptions C01_inflater_window_and_delivery.
